@@ -156,7 +156,12 @@ func replay(r *ev.Run, viol *violations) {
 		if err != nil {
 			ev.Fatal("%v", err)
 		}
-		runPromCases(r, viol, db, tables, []promCase{c})
+		if strings.HasPrefix(c.Expr, "select ") {
+			// a two-Selects-on-one-Querier case: the whole (small) family is re-run
+			checkSelectTwice(r, viol, db, tables)
+		} else {
+			runPromCases(r, viol, db, tables, []promCase{c})
+		}
 		r.Distinct("replay")
 	case "matchers", "profile":
 		replayMatchers(r, viol, doc.Replay)
